@@ -63,6 +63,8 @@ structure Plan where
   factors : List (Option Nat)
   /-- recorded position swaps, in recording order -/
   swaps : List (Nat × Nat)
+  /-- final `localQBits`: the qubit standing at every position -/
+  loc : List Nat
 deriving Repr, DecidableEq
 
 /-- index of the first line that mentions qubit `qb` (Go: the `found`/`fundLine` loop) -/
@@ -103,9 +105,9 @@ def argLoop : Nat → Nat → List Nat → Nat → List Nat → List (Nat × Nat
 /-- the `for q := 0; q < len(localQBits); q++` walk -/
 def walk (stale : Bool) (n : Nat) (L : List (List Nat)) :
     Nat → Nat → List Nat → List (Nat × Nat) → List (Option Nat) → Option Plan
-  | 0, q, _, sw, fac => if n ≤ q then some ⟨fac.reverse, sw⟩ else none
+  | 0, q, loc, sw, fac => if n ≤ q then some ⟨fac.reverse, sw, loc⟩ else none
   | f + 1, q, loc, sw, fac =>
-    if n ≤ q then some ⟨fac.reverse, sw⟩ else
+    if n ≤ q then some ⟨fac.reverse, sw, loc⟩ else
     match loc[q]? with
     | none => none
     | some qb =>
@@ -253,6 +255,23 @@ def simulate (N : Nat) (ms : List (Mat R)) (v : Nat → R) : Nat → R :=
   ms.foldl (fun s m => mulVec N m s) v
 
 end algebra
+
+/-! ### the whole compiler: one matrix per layer (`QasmToBmMatrices`), `none` = error/panic -/
+section compile
+variable {R : Type} [MulOps R]
+
+def compileMats (stale : Bool) (n : Nat) : List (List (Gate R)) → Option (List (DMat R))
+  | [] => some []
+  | l :: ls =>
+    match layer stale n l, compileMats stale n ls with
+    | some m, some ms => some (m :: ms)
+    | _, _ => none
+
+/-- model of `QasmToBmMatrices` on `n` declared qubits -/
+def compile (stale : Bool) (n : Nat) (c : List (Gate R)) : Option (List (DMat R)) :=
+  compileMats stale n (compileLayers c)
+
+end compile
 
 /-! ### the symbolic instance: an entry is 0 or a product of atoms (gate line, row, column) -/
 
